@@ -32,6 +32,7 @@ type FileCfg struct {
 	Go      bool              `json:"go"`      // rewrite go statements
 	Gosched bool              `json:"gosched"` // rewrite runtime.Gosched()
 	Skip    []string          `json:"skip"`    // functions excluded from "*"
+	Atomic  []string          `json:"atomic"`  // functions executed as one scheduler step (points inside are suppressed)
 	Filter  string            `json:"filter"`  // "shared" (default): only statements whose own expressions contain a call, selector, dereference or channel operation; "all": every statement
 }
 
@@ -159,6 +160,16 @@ func touchesShared(st ast.Stmt) bool {
 		return false
 	case *ast.DeclStmt:
 		exprs = append(exprs, x)
+	case *ast.ExprStmt:
+		if c, ok := x.X.(*ast.CallExpr); ok {
+			if se, ok := c.Fun.(*ast.SelectorExpr); ok {
+				switch se.Sel.Name {
+				case "Debug", "Info", "Warn", "Error": // logging only
+					return false
+				}
+			}
+		}
+		exprs = append(exprs, st)
 	default:
 		exprs = append(exprs, st)
 	}
@@ -296,6 +307,12 @@ func instrument(src, dst string, fc FileCfg) error {
 			sel = true
 		} else if all && !skip[name] && !skip[fd.Name.Name] {
 			sel = true
+		}
+		for _, a := range fc.Atomic {
+			if a == name || a == fd.Name.Name {
+				add(off(fd.Body.Lbrace)+1, off(fd.Body.Lbrace)+1, " vsched.AtomicEnter(); defer vsched.AtomicLeave(); ")
+				usesSched = true
+			}
 		}
 		if !sel {
 			continue
